@@ -28,4 +28,18 @@ CLAIMS = {
         'not_decided': 'the numeric -j / load-average capacity formula (CanRunMore), "never idles" and '
                        '"always terminates" (liveness).',
     },
+    'C04': {
+        'design': '5.4',
+        'technique': 'who-may-call/write + guard facts + full-range loop and per-iteration must-pass-through over clang CFG facts',
+        'decides': 'edges are admitted to the ready queue / a pool only where AllInputsReady() is known true; '
+                   'AllInputsReady iterates the whole inputs_ range, consults every producer and ignores '
+                   'validations; who may set outputs_ready_ (true only on success or as the scan\'s initial '
+                   'value); the only spawn chain is Build -> StartEdge -> StartCommand with the edge returned by '
+                   'FindWork; in StartEdge MakeDirs for every output (every loop iteration), MakeDirs(depfile) '
+                   'and WriteFile(rspfile, rspfile_content) precede StartCommand and their failure cannot reach '
+                   'it; after a build-time dyndep load every output is examined, dyndep info is loaded before '
+                   'dependents are woken, and the re-plan precedes readiness re-evaluation; functions inserting '
+                   'into inputs_ register out-edges.',
+        'not_decided': 'the for-all-schedules ordering itself (an induction over run-time states that is not mechanised).',
+    },
 }
